@@ -963,6 +963,12 @@ func vf10MeekRun(sc *vf10Script) (res *vf10Result) {
 	}
 	if sc.Parked {
 		cls["meek-application-not-reading"] = true
+		if res.sumLen >= 16*vf10MeekMaxBody {
+			cls["meek-buffered>=16x64KiB-while-not-reading"] = true
+		}
+		if res.sumLen == 17*vf10MeekMaxBody {
+			cls["meek-buffered=17x64KiB(queue+worker's hand, all at the limit)"] = true
+		}
 	}
 	if res.readBytes > 0 {
 		cls["meek-data-delivered"] = true
